@@ -110,6 +110,7 @@ def main():
             cases.append((debs[0], None, (), False))
         M.deb_stream(chk, work, cases)
         mo_model_stream(chk, work, 40 * scale)
+        found += F.cli_subset(chk, work, 8 * scale, stats)
         # --- the metamorphic falsifiers
         seeds = [chk.seed] + ([chk.seed + 1000 * k for k in (1, 2, 3)] if thorough else [])
         import random
@@ -122,7 +123,7 @@ def main():
     finally:
         work.close()
     chk.evaluations += stats['po_spelling_pairs'] + stats['transcoding_pairs'] + stats['transcoding_pairs_mo'] + stats['mo_layout_pairs'] + stats['po_mo_pairs'] \
-        + stats['po_mo_unsorted_pairs'] + stats['packages'] + stats['cli_runs'] + stats['sequence_runs']
+        + stats['po_mo_unsorted_pairs'] + stats['packages'] + stats['cli_runs'] + stats['sequence_runs'] + stats['cli_pairs'] + stats['cli_vs_inproc']
     chk.coverage['metamorphic'] = {k: v for k, v in sorted(stats.items())}
     chk.coverage['modulo'] = {'charset_tags': sorted(M.CHARSET_TAGS), 'mo_exemption': 'no-date-header-field POT-Creation-Date (PO side only)',
                               'order_sensitive_on_reordered_catalogs_only': sorted(M.ORDER_SENSITIVE)}
